@@ -1148,6 +1148,25 @@ where
                 done,
             } => {
                 let max_idx = new_entries.last().map(|e| e.index).unwrap_or(0);
+                // A persist that was in flight while the caller truncated the in-memory log
+                // may have recorded (or already published) a watermark for entries that are
+                // being replaced now; nothing at or above truncate_from is durable any more.
+                let floor = truncate_from.saturating_sub(1);
+                *pending_max = (*pending_max).min(floor);
+                this.durable_index.fetch_min(floor, Ordering::AcqRel);
+                // Entries below the truncation point that were appended but not yet handed to
+                // the store must reach it before the new tail does; otherwise the store holds
+                // the tail above a hole and the watermark below would cover the hole.
+                let backlog_start = this.durable_index.load(Ordering::Acquire) + 1;
+                if backlog_start <= floor
+                    && let Ok(backlog) = this.get_entries_range(backlog_start..=floor)
+                    && !backlog.is_empty()
+                    && let Err(e) = this.log_store.persist_entries(backlog).await
+                {
+                    error!("IOTask::ReplaceRange backlog persist failed (fatal): {e:?}");
+                    let _ = done.send(Err(e));
+                    return true;
+                }
                 let result = this.log_store.replace_range(truncate_from, new_entries).await;
                 if let Err(ref e) = result {
                     error!("IOTask::ReplaceRange failed (fatal): {e:?}");
@@ -1168,6 +1187,9 @@ where
             IOTask::Reset { done } => {
                 let result = this.log_store.reset().await;
                 *pending_max = 0; // disk wiped — pending page-cache watermark must be zeroed
+                // A persist that was in flight when reset() cleared durable_index may have
+                // advanced it again for entries that no longer exist; nothing is durable now.
+                this.durable_index.store(0, Ordering::Release);
                 let _ = done.send(result);
                 false
             }
